@@ -32,7 +32,7 @@ func genFmtCover(repo, out string) {
 	dir := filepath.Join(repo, "internal", "config")
 	fset := token.NewFileSet()
 	ents, err := os.ReadDir(dir)
-	must(err)
+	check(err)
 	var files []*ast.File
 	names := map[*ast.File]string{}
 	for _, e := range ents {
@@ -41,7 +41,7 @@ func genFmtCover(repo, out string) {
 			continue
 		}
 		f, err := parser.ParseFile(fset, filepath.Join(dir, n), nil, 0)
-		must(err)
+		check(err)
 		files = append(files, f)
 		names[f] = n
 	}
@@ -60,7 +60,7 @@ func genFmtCover(repo, out string) {
 	}}
 	_, _ = conf.Check("config", fset, files, info)
 	if typeErrs > 0 {
-		must(fmt.Errorf("internal/config does not type-check in parser.go/format.go/config.go/lexer.go (%d errors)", typeErrs))
+		check(fmt.Errorf("internal/config does not type-check in parser.go/format.go/config.go/lexer.go (%d errors)", typeErrs))
 	}
 	owner := func(sel *types.Selection) string {
 		t := sel.Recv()
@@ -288,5 +288,5 @@ func genFmtCover(repo, out string) {
 	fmt.Fprintf(&b, "def quotingPairs : List String := %s\n", leanList(sortedKeys(pairs)))
 	fmt.Fprintf(&b, "def quotingPairsMismatched : List String := %s\n\n", leanList(sortedKeys(badPairs)))
 	b.WriteString("end Hk.Gen.Fmt\n")
-	must(os.WriteFile(filepath.Join(out, "FmtCover.lean"), []byte(b.String()), 0o644))
+	check(os.WriteFile(filepath.Join(out, "FmtCover.lean"), []byte(b.String()), 0o644))
 }
